@@ -43,11 +43,11 @@ def gen_stage(ck, scratch, sets):
     return extra, man["packages"], man
 
 
-def write_imports(scratch, engine, pkgs, man=None):
+def write_imports(scratch, engine, pkgs, man=None, pkgname="main"):
     """imports_gen.go for the engine's package main: blank imports + request descriptors for C19."""
     p = scratch.path("imports_gen_%s.go" % engine)
     with open(p, "w") as fh:
-        fh.write("package main\n\nimport (\n")
+        fh.write("package %s\n\nimport (\n" % pkgname)
         for pkg in pkgs:
             fh.write('\t_ "%s"\n' % pkg)
         fh.write(")\n")
@@ -61,7 +61,7 @@ def prepare(ck, prop, spec, scratch, tier):
         sets = list(spec["gen"].get(tier, spec["gen"]["quick"]))
         gen_extra, pkgs, man = gen_stage(ck, scratch, sets)
         extra.update(gen_extra)
-        imp = write_imports(scratch, spec["engine"], CHECKED_IN + pkgs, man)
+        imp = write_imports(scratch, spec["engine"], CHECKED_IN + pkgs, man, pkgname=(spec["engine"] if spec.get("test") else "main"))
         extra[os.path.join(ck.REPO, ZZ, spec["engine"], "imports_gen.go")] = imp
         spec["gen_manifest"] = man
     if spec.get("mapctl"):
